@@ -104,7 +104,7 @@ def _pres_nonce(p):
 def forms_oracle(op, line, facts):
     """direct oracle on a sequence of requests served one after the other by the real endpoints (op "forms")"""
     bad = []
-    m = re.match(r"forms ans=(.*) live=\[(.*)\]$", line)
+    m = re.match(r"forms ans=(.*) live=\[(.*?)\](?: calls=\[(.*)\])?$", line)
     if not m:
         return [("C05:forms:unparsable-output", line[:200])]
     ans = m.group(1).split(";")
@@ -118,7 +118,37 @@ def forms_oracle(op, line, facts):
         now += r.get("dt", 0)
         t.append(now)
     live = set(filter(None, m.group(2).split(",")))
+    calls = [c.split(",") if c else [] for c in m.group(3).split(";")] if m.group(3) is not None else None
+    if calls is not None and len(calls) != len(reqs):
+        return [("C05:forms:unparsable-output", line[:200])]
+
+    def consumed(j, key, second):
+        """request j read `key` and then wrote it off (del for burn-on-use, set for mark-as-used) in its own store calls"""
+        cs = calls[j]
+        return ("get:" + key) in cs and (second + ":" + key) in cs[cs.index("get:" + key) + 1:]
     for j, (r, a) in enumerate(zip(reqs, ans)):
+        if calls is not None:
+            # an attempt with an authorization code issues the burn of that code, whatever the answer
+            if r["t"] == "token" and r.get("grant") == "authorization_code" and "code" in r and ("del:code/" + r["code"]) not in calls[j]:
+                bad.append((f"C05:code:{where}:form-attempt-without-burn", f"request {j} presented code {r['code']!r} (answer {a}); its store calls {calls[j]} contain no Delete of the code"))
+            # an honoured request consumed its secret itself: Get then Delete (burn-on-use) / Get then Set (mark-as-used) of the key it named
+            if a == "200":
+                need = []
+                if r["t"] == "token" and r.get("grant") == "authorization_code" and "code" in r:
+                    need = [("code/" + r["code"], "del")]
+                elif r["t"] == "reqobj":
+                    need = [("reqobj/" + r.get("id", ""), "del")]
+                elif r["t"] == "landing":
+                    need = [("redirect/" + r.get("token", ""), "del")]
+                elif r["t"] == "dpop":
+                    need = [("jti/" + r.get("jti", ""), "set")]
+                elif r["t"] == "response":
+                    need = [("vpnonce/" + n, "del") for n in sorted({_pres_nonce(p) for p in r.get("vp") or []} - {""})]
+                elif r["t"] == "token" and r.get("grant") == "vp_token-bearer":
+                    need = [("s2s/" + n, "set") for n in (r.get("assertion") or [])]
+                for key, second in need:
+                    if not consumed(j, key, second):
+                        bad.append((f"C05:{key.split('/')[0]}:{where}:form-honoured-without-consuming", f"request {j} was honoured; its store calls {calls[j]} do not read and then {second} {key!r}"))
         code_req = r["t"] == "token" and r.get("grant") == "authorization_code" and "code" in r
         # every authorization code the token endpoint was shown is gone at the end, whatever the answer was
         if code_req and ("code/" + r["code"]) in live:
